@@ -607,3 +607,10 @@ _SYNCRACE = (" sync-race: histories whose last run is cancelled at the very mome
 for _p in ("C12", "C13"):
     PROPS[_p]["domains"].append("sync-race")
     PROPS[_p]["rule"] += _SYNCRACE
+
+# C11: the unknown-type check of the validator asks the (caching) RESTMapper; whether a type is known in the NEXT run of the same
+# applier depends on the mapper having been reset after a CRD was applied or deleted — WaitTask.updateRESTMapper, driven by the
+# `wait` domain with CRD ids in apply and delete phases (theorems C04S.mapper_reset_iff / no_reset_otherwise)
+PROPS["C11"]["domains"].append("wait")
+PROPS["C11"]["rule"] += (" wait (CRD ids): after a wait phase that holds a CustomResourceDefinition whose apply or delete was not skipped the RESTMapper is "
+                         "reset exactly once (counting ResettableRESTMapper), otherwise never — the freshness the validator's unknown-type check relies on.")
